@@ -32,7 +32,7 @@ OpsOf ==       \* per object kind the read-only method set, in a fixed order
                   "AddOperand", "SubOperand", "NegOperand", "MulOperand">>,
    scalar   |-> <<"MarshalBinary", "String", "Equal", "Clone", "MarshalTo", "SetArg",
                   "AddOperand", "MulOperand", "NegOperand", "InvOperand", "DivOperand", "MulPoint">>,
-   suite    |-> <<"RandomStream", "PickScalar", "PickPoint", "Hash", "XOF", "NewKeyPair">>,
+   suite    |-> <<"RandomStream", "PickScalar", "PickPoint", "Hash", "XOF", "NewKeyPair", "NewPoint", "NewScalar">>,
    pairing  |-> <<"Pair", "ValidatePairing", "MarshalG1", "MarshalG2">>,
    bdnmask  |-> <<"Clone", "Mask", "Publics", "Participants", "CountEnabled", "IndexOfNthEnabled",
                   "AggregatePublicKeys">>,
@@ -40,7 +40,21 @@ OpsOf ==       \* per object kind the read-only method set, in a fixed order
    pubpoly  |-> <<"Eval", "Check", "Commit", "Info", "Equal", "Shares">>,
    verifier |-> <<"Verify", "VerifyWrongMsg", "MarshalKey">>]
 
-RepsOf(k) == IF k \in {"point", "scalar", "pairing"} THEN {"decoded", "arith"} ELSE {"default"}
+(* representations of the shared object:                                     *)
+(*  "decoded" / "arith"  a value freshly decoded / left by one arithmetic    *)
+(*                       operation (non-normalised coordinates)              *)
+(*  "fresh"   suite-like and scheme objects: a NEW object is constructed for *)
+(*            the workload and NO call is made on it before the barrier: the *)
+(*            goroutines' first read-only calls on it (RandomStream, Hash,   *)
+(*            XOF, Point/Scalar factories, Pair, mask reads, Eval, Verify..) *)
+(*            run concurrently -- where lazily created fields would be       *)
+(*            written -- and a stream obtained from it is used concurrently  *)
+(*  "warm"    a suite on which RandomStream() was called once by the         *)
+(*            constructing goroutine; that ONE stream object is shared       *)
+RepsOf(k) == CASE k \in {"point", "scalar"} -> {"decoded", "arith"}
+               [] k = "pairing" -> {"decoded", "arith", "fresh"}
+               [] k = "suite"   -> {"fresh", "warm"}
+               [] OTHER         -> {"fresh"}
 
 VARIABLES wl,      \* the workload: [kind, rep, ops (one per goroutine)]
           pc,      \* goroutine -> number of accesses done
@@ -62,7 +76,7 @@ Init == \E k \in Kinds : \E r \in RepsOf(k) : \E idx \in [Gs -> 1..Len(OpsOf[k])
           /\ \A g \in 1..(G - 1) : idx[g] <= idx[g + 1]
           /\ wl = [kind |-> k, rep |-> r, ops |-> [g \in Gs |-> OpsOf[k][idx[g]]]]
           /\ pc = [g \in Gs |-> 0]
-          /\ sh = IF r = "arith" THEN "raw" ELSE "norm"
+          /\ sh = IF r \in {"arith", "fresh"} THEN "raw" ELSE "norm"   \* nothing normalised / created yet
           /\ seen = [g \in Gs |-> <<>>]
           /\ wr = {} /\ rd = {}
 
